@@ -4,7 +4,7 @@ import simple
 
 
 def check(run, only=None):
-    run.rule = ("18 implemented Twig filters x 26 values (null, booleans, numbers incl. negative and fractional, strings incl. blanks, "
+    run.rule = ("19 implemented Twig filters (incl. json_encode) and the 9 registered-but-unimplemented ones (pass-through) x 29 values (null, booleans, numbers incl. negative and fractional, strings incl. blanks, "
                 "punctuation and multi-byte, arrays, hashes) x their argument lists; the result is handed to a recording callback and "
                 "compared as a typed value with spec/Filters.tla; undecided cases (out of model) are counted")
     run.assumptions = ["not one of the twenty listed properties: an extra check of the specification's coverage of the Twig filter "
